@@ -191,6 +191,7 @@ def check_C13(report, tier, seed):
     report.assumptions.append("thread/task interleavings are sampled by running the real drivers, not enumerated; the model covers the write-loop accounting, the websocket read adapter and the result slot")
     gv.theorem_obligations(report, "GV/Props/C13.lean", "GV.Props.C13", audit=True)
     S.suite_ws(report, tier, seed, "C13")
+    S.suite_ws_write(report, tier, seed, "C13")
     S.suite_fidelity(report, tier, seed, "C13")
     S.suite_reconnect_fidelity(report, tier, seed, "C13")
     S.suite_results(report, tier, seed, "C13")
